@@ -103,6 +103,16 @@ struct Results {
     client_confirmed: std::collections::BTreeSet<u32>,
     /// no fault of any kind is injected into the network of this world
     fault_free: bool,
+    /// 0-RTT family: the server refuses early data on the second connection
+    zr_reject: bool,
+    /// operations that failed with a ZeroRttRejected error
+    zr_errors: u32,
+    /// stream tasks started on a connection obtained from into_0rtt() before the handshake
+    zr_early_streams: u32,
+    /// when handshake_confirmed() returned on the second connection / when its early streams
+    /// had all ended
+    zr_t_confirmed: Option<Ns>,
+    zr_t_early_done: Option<Ns>,
 }
 
 type Res = Arc<Mutex<Results>>;
@@ -125,6 +135,12 @@ fn spawn(sim: &Sim, res: &Res, name: String, f: impl FnOnce(Lbl) -> std::pin::Pi
 
 fn op_failed(res: &Res, ci: u32, what: &str, e: &dyn std::fmt::Display) {
     let mut r = res.lock().unwrap();
+    if format!("{}", e).contains("0-RTT rejected") {
+        r.zr_errors += 1;
+        if r.zr_reject {
+            return;
+        }
+    }
     if !r.closing.contains(&ci) {
         r.unexpected.push((ci, format!("{}: {}", what, e)));
     }
@@ -709,23 +725,34 @@ async fn server_conn(sim: Sim, res: Res, lbl: Lbl, conn: Connection, ci: u32, re
     lbl.set("done");
 }
 
-async fn server_main(sim: Sim, res: Res, lbl: Lbl, ep: Endpoint, n_conns: u32, addr_to_ci: BTreeMap<SocketAddr, u32>, resp: usize) {
+async fn server_main(sim: Sim, res: Res, lbl: Lbl, ep: Endpoint, n_conns: u32, addr_to_ci: BTreeMap<SocketAddr, u32>, resp: usize, seq_ci: Option<Vec<u32>>) {
     let (tx, mut rx) = tokio::sync::mpsc::unbounded_channel::<()>();
     {
         let (s2, r2, ep2, tx2) = (sim.clone(), res.clone(), ep.clone(), tx.clone());
         spawn(&sim, &res, "server-accept".to_string(), move |l| {
             Box::pin(async move {
+                let mut n_seen = 0usize;
                 loop {
                     l.set("Endpoint::accept()");
                     let Some(inc) = ep2.accept().await else { break };
                     // address validation by Retry, decided per Incoming
-                    if inc.may_retry() && draw(&s2, "c18.retry", 4) == 3 {
+                    // (not where connections are told apart by their order: every tokenless
+                    // Initial, retransmissions included, would then count as one)
+                    if seq_ci.is_none() && inc.may_retry() && draw(&s2, "c18.retry", 4) == 3 {
                         if inc.retry().is_ok() {
                             s2.with(|s| s.probes.hit("incoming_retried"));
                         }
                         continue;
                     }
-                    let ci = addr_to_ci.get(&inc.remote_address()).copied().unwrap_or(999);
+                    let ci = match &seq_ci {
+                        // (connections told apart by their order rather than by their address)
+                        Some(v) => {
+                            let k = n_seen;
+                            n_seen += 1;
+                            v.get(k).copied().unwrap_or(999)
+                        }
+                        None => addr_to_ci.get(&inc.remote_address()).copied().unwrap_or(999),
+                    };
                     // (one task per handshake: a stalled one must not hold up the others)
                     let (s3, r3, tx3) = (s2.clone(), r2.clone(), tx2.clone());
                     spawn(&s2, &r2, format!("server-conn{}", ci), move |l| {
@@ -898,7 +925,7 @@ fn run(mut ch: Chooser, ctx: &RunCtx, faults: bool, big: bool) -> RunOut {
     }
     {
         let (s2, r2) = (sim.clone(), res.clone());
-        spawn(&sim, &res, "server-main".to_string(), move |l| Box::pin(server_main(s2, r2, l, server_ep, n_clients, addr_to_ci, resp)));
+        spawn(&sim, &res, "server-main".to_string(), move |l| Box::pin(server_main(s2, r2, l, server_ep, n_clients, addr_to_ci, resp, None)));
     }
     // clients
     for ci in 0..n_clients {
@@ -1023,6 +1050,277 @@ fn run(mut ch: Chooser, ctx: &RunCtx, faults: bool, big: bool) -> RunOut {
     })
 }
 
+/// 0-RTT through the async API: connect once to obtain a ticket, then connect again with
+/// `Connecting::into_0rtt()` and use the connection before the handshake has completed. The
+/// server either accepts the early data or (its configuration replaced in between through
+/// `Endpoint::set_server_config`) resumes the session but refuses it.
+async fn client_main_0rtt(sim: Sim, res: Res, lbl: Lbl, ep: Endpoint, cfg: quinn::ClientConfig, server: SocketAddr, server_ep: Endpoint, reject_cfg: Option<quinn::ServerConfig>, first: ConnPlan, early: ConnPlan, post: ConnPlan) {
+    // first connection: obtains the ticket
+    lbl.set("connect (first)");
+    let conn = match ep.connect_with(cfg.clone(), server, "localhost") {
+        Ok(c) => match c.await {
+            Ok(c) => c,
+            Err(e) => {
+                sim.violate("async-connect-failed", format!("first connection: {}", e));
+                return;
+            }
+        },
+        Err(e) => {
+            sim.violate("async-connect-failed", format!("first connection: {}", e));
+            return;
+        }
+    };
+    run_streams(&sim, &res, &lbl, &conn, 0, &first).await;
+    wait_server_read(&sim, &res, &lbl, &conn, 0).await;
+    res.lock().unwrap().closing.insert(0);
+    conn.close(VarInt::from_u32(7), b"first");
+    lbl.set("closed() (first)");
+    let _ = conn.closed().await;
+    drop(conn);
+    if let Some(c) = reject_cfg {
+        server_ep.set_server_config(Some(c));
+        sim.with(|s| s.faults.hit("server_config_replaced"));
+    }
+    drop(server_ep);
+    // second connection
+    lbl.set("connect (second)");
+    let connecting = match ep.connect_with(cfg, server, "localhost") {
+        Ok(c) => c,
+        Err(e) => {
+            sim.violate("async-connect-failed", format!("second connection: {}", e));
+            return;
+        }
+    };
+    let reject = res.lock().unwrap().zr_reject;
+    let conn = match connecting.into_0rtt() {
+        Ok(conn) => {
+            sim.with(|s| s.probes.hit("client_into_0rtt"));
+            res.lock().unwrap().zr_early_streams += early.streams.len() as u32;
+            if reject {
+                // whatever the early streams report is judged at the end (every one of them has
+                // to fail with ZeroRttRejected; none may hang)
+                res.lock().unwrap().closing.insert(1);
+            }
+            {
+                let (s2, r2, c2) = (sim.clone(), res.clone(), conn.clone());
+                spawn(&sim, &res, "client-second-confirmed".to_string(), move |l| {
+                    Box::pin(async move {
+                        l.set("handshake_confirmed()");
+                        if c2.handshake_confirmed().await.is_ok() {
+                            let now = s2.with(|s| s.now);
+                            r2.lock().unwrap().zr_t_confirmed = Some(now);
+                        }
+                        drop(c2);
+                        l.set("done");
+                    })
+                });
+            }
+            run_streams(&sim, &res, &lbl, &conn, 1, &early).await;
+            let now = sim.with(|s| s.now);
+            res.lock().unwrap().zr_t_early_done = Some(now);
+            conn
+        }
+        Err(connecting) => {
+            sim.with(|s| s.probes.hit("client_without_ticket"));
+            match connecting.await {
+                Ok(c) => c,
+                Err(e) => {
+                    sim.violate("async-connect-failed", format!("second connection: {}", e));
+                    return;
+                }
+            }
+        }
+    };
+    // after the handshake: the connection must be fully usable whatever happened to early data
+    let ci_post = if reject { 2 } else { 1 };
+    run_streams(&sim, &res, &lbl, &conn, ci_post, &post).await;
+    wait_server_read(&sim, &res, &lbl, &conn, ci_post).await;
+    {
+        let mut r = res.lock().unwrap();
+        r.closing.insert(1);
+        r.closing.insert(2);
+    }
+    conn.close(VarInt::from_u32(7), b"second");
+    drop(conn);
+    lbl.set("wait_idle()");
+    ep.wait_idle().await;
+    res.lock().unwrap().open_conns_at_end.push(ep.open_connections());
+    drop(ep);
+    res.lock().unwrap().clients_done += 1;
+    lbl.set("done");
+}
+
+/// run the planned streams of one connection as tasks and join them
+async fn run_streams(sim: &Sim, res: &Res, lbl: &Lbl, conn: &Connection, ci: u32, plan: &ConnPlan) {
+    let (tx, mut rx) = tokio::sync::mpsc::unbounded_channel::<()>();
+    let mut expected = 0;
+    for (si, p) in plan.streams.iter().cloned().enumerate() {
+        let (s2, r2, c2, tx2) = (sim.clone(), res.clone(), conn.clone(), tx.clone());
+        expected += 1;
+        spawn(sim, res, format!("client-conn{}-stream{}", ci, si), move |l| {
+            Box::pin(async move {
+                client_stream(s2, r2, l, c2, ci, p, si).await;
+                let _ = tx2.send(());
+            })
+        });
+    }
+    drop(tx);
+    for _ in 0..expected {
+        lbl.set(&format!("join stream tasks of connection {}", ci));
+        if rx.recv().await.is_none() {
+            break;
+        }
+    }
+}
+
+/// wait until the server application has read every stream this connection finished
+async fn wait_server_read(sim: &Sim, res: &Res, lbl: &Lbl, conn: &Connection, ci: u32) {
+    let mut nap = MS;
+    loop {
+        if conn.close_reason().is_some() {
+            break;
+        }
+        let all = {
+            let r = res.lock().unwrap();
+            r.written.iter().filter(|((c, _), (_, complete))| *c == ci && *complete).all(|(k, (n, _))| r.read.get(k) == Some(n))
+        };
+        if all {
+            break;
+        }
+        lbl.set("waiting for the server application to have read every finished stream");
+        sleep(sim, nap).await;
+        nap = (nap * 2).min(1000 * MS);
+    }
+}
+
+fn run_0rtt(mut ch: Chooser, ctx: &RunCtx) -> RunOut {
+    cfgs::seed_tls(mix(&[0xA5, 18, 0x0477]));
+    let reject = ch.chance("c18.zr.reject", 1, 2);
+    let small = |ch: &mut Chooser, n_max: u64| -> ConnPlan {
+        let n = ch.range("c18.zr.n_streams", 1, n_max) as usize;
+        let streams = (0..n)
+            .map(|_| StreamPlan {
+                bi: ch.chance("c18.zr.bi", 1, 2),
+                size: ch.range_log("c18.zr.size", 0, 4000) as usize,
+                chunk: *ch.pick("c18.zr.chunk", &[4096usize, 100, 1200]),
+                cancel_w: ch.choose("c18.zr.cancel_w", 3),
+                drop_unfinished: false,
+                resp: ch.range_log("c18.zr.resp", 0, 3000) as usize,
+                stop_after: None,
+                reset_after: None,
+            })
+            .collect();
+        ConnPlan { streams, dgrams: 0, explicit_close: true, parked: false, rebind: None }
+    };
+    let first = small(&mut ch, 2);
+    let early = small(&mut ch, 3);
+    let post = small(&mut ch, 2);
+    let mut ks = if ch.chance("c18.zr.default_knobs", 1, 2) { TKnobs::default() } else { TKnobs::draw(&mut ch) };
+    let mut kc = if ch.chance("c18.zr.default_knobs_c", 1, 2) { TKnobs::default() } else { TKnobs::draw(&mut ch) };
+    for k in [&mut ks, &mut kc] {
+        k.idle_ms = Some(60_000);
+        k.keep_alive_ms = None;
+        k.max_bidi = k.max_bidi.max(4);
+        k.max_uni = k.max_uni.max(4);
+        k.stream_window = k.stream_window.max(64);
+        k.conn_window = k.conn_window.max(64);
+        k.send_window = k.send_window.max(64);
+    }
+    let net = crate::asim::ANet { faults: false, base_delay: *ch.pick("c18.zr.delay", &[5 * MS, MS, 50 * MS, 100_000]), jitter: 0, drop: 0, dup: 0, reorder: 0, would_block: *ch.pick("c18.zr.would_block", &[0u32, 0, 50, 300]) };
+    let resp = 2000usize;
+    let sim = Sim::new(ch, ctx.log);
+    sim.with(|s| s.net = net.clone());
+    let rt: Arc<dyn quinn::Runtime> = Arc::new(SimRuntime(sim.clone()));
+    let res: Res = Arc::new(Mutex::new(Results::default()));
+    res.lock().unwrap().fault_free = true;
+    res.lock().unwrap().zr_reject = reject;
+    let clock = cfgs::SimTime::new();
+    let server_addr = cfgs::addr(0, 0);
+    let tls = cfgs::rustls_server(false, true);
+    let transport = Arc::new(ks.build());
+    let scfg = cfgs::server_config(cfgs::untapped_server_crypto(tls.clone()), 0x70, transport.clone(), clock.clone());
+    let reject_cfg = if reject {
+        // the same ticket keys (the session is resumed), early data switched off
+        let mut t2 = tls.clone();
+        t2.max_early_data_size = 0;
+        Some(cfgs::server_config(cfgs::untapped_server_crypto(t2), 0x70, transport, clock.clone()))
+    } else {
+        None
+    };
+    let sep = EpOpts { seed: 0x5E47, cid_len: 8, ..Default::default() };
+    let server_ep = Endpoint::new_with_abstract_socket(cfgs::endpoint_config(&sep), Some(scfg), sim.socket(server_addr), rt.clone()).expect("server endpoint");
+    {
+        let (s2, r2, ep2) = (sim.clone(), res.clone(), server_ep.clone());
+        // the second connection's streams are the early ones (accepted) or the ones opened after
+        // the handshake (early data refused: the server never sees the early streams)
+        let seq = vec![0, if reject { 2 } else { 1 }];
+        spawn(&sim, &res, "server-main".to_string(), move |l| Box::pin(server_main(s2, r2, l, ep2, 1, BTreeMap::new(), resp, Some(seq))));
+    }
+    let cep = EpOpts { seed: 0xC11E, cid_len: 8, reset_key_seed: 100, ..Default::default() };
+    let ep = Endpoint::new_with_abstract_socket(cfgs::endpoint_config(&cep), None, sim.socket(cfgs::addr(1, 0)), rt.clone()).expect("client endpoint");
+    let ccfg = cfgs::client_config(cfgs::untapped_client_crypto(cfgs::rustls_client(true)), Arc::new(kc.build()), 0xDC1D);
+    {
+        let (s2, r2) = (sim.clone(), res.clone());
+        spawn(&sim, &res, "client-main".to_string(), move |l| Box::pin(client_main_0rtt(s2, r2, l, ep, ccfg, server_addr, server_ep, reject_cfg, first, early, post)));
+    }
+    drop(rt);
+    let finished = sim.run(3_000_000, 3 * 3600 * 1_000_000_000);
+    let r = res.lock().unwrap();
+    let pending_app: Vec<String> = sim.with(|s| s.metas.iter().filter(|m| m.app && !m.done).map(|m| m.name.clone()).collect());
+    let pending_drv = sim.with(|s| s.metas.iter().filter(|m| !m.app && !m.done).count());
+    if sim.with(|s| s.violations.is_empty()) {
+        if !pending_app.is_empty() {
+            let ops: Vec<String> = pending_app.iter().map(|n| format!("{} [{}]", n, r.labels.iter().find(|(k, _)| k == n).map(|(_, l)| l.lock().unwrap().clone()).unwrap_or_default())).collect();
+            let kind = if finished { "async-operation-never-completed" } else { "async-no-progress" };
+            sim.violate(kind, format!("0-RTT world (server {} early data): application tasks still pending: {}", if reject { "refuses" } else { "accepts" }, ops.join("; ")));
+        } else if pending_drv > 0 {
+            sim.violate("async-driver-task-never-terminated", format!("every application task has finished and every handle is dropped, yet {} task(s) spawned by quinn are still alive", pending_drv));
+        } else if r.open_conns_at_end.iter().any(|n| *n != 0) {
+            sim.violate("async-open-connections-after-wait-idle", format!("open_connections() after wait_idle(): {:?}", r.open_conns_at_end));
+        } else if let Some((_, e)) = r.unexpected.first() {
+            sim.violate("async-unexpected-error", format!("0-RTT world (server {} early data): {} ({} such errors)", if reject { "refuses" } else { "accepts" }, e, r.unexpected.len()));
+        } else if !reject && r.zr_errors > 0 {
+            sim.violate("async-zero-rtt-rejected-by-accepting-server", format!("{} operations failed with ZeroRttRejected although the server accepts early data", r.zr_errors));
+        } else if reject && r.zr_t_confirmed.is_some() && r.zr_t_early_done.is_some_and(|d| d > r.zr_t_confirmed.unwrap() + 4 * net.base_delay + 1000 * MS) {
+            sim.violate("async-completion-late", format!("the server refused early data and the handshake was confirmed at {}, yet the streams opened before it only ended at {} (fault-free network): a rejected stream must fail at once, not when something unrelated wakes its task", crate::world::fmt_t(r.zr_t_confirmed.unwrap()), crate::world::fmt_t(r.zr_t_early_done.unwrap())));
+        } else if reject && r.zr_early_streams > 0 && r.zr_errors < r.zr_early_streams {
+            sim.violate("async-rejected-early-stream-not-reported", format!("the server refused early data: {} streams were opened before the handshake completed, only {} operations reported ZeroRttRejected", r.zr_early_streams, r.zr_errors));
+        } else {
+            for ((ci, sid), (n, complete)) in &r.written {
+                if !*complete || (reject && *ci == 1) {
+                    continue;
+                }
+                match r.read.get(&(*ci, *sid)) {
+                    Some(k) if k == n => {}
+                    other => {
+                        sim.violate("async-stream-incomplete", format!("connection {} wrote {} bytes on stream {} and ended it, the server read {:?} (server {} early data)", ci, n, sid, other, if reject { "refuses" } else { "accepts" }));
+                        break;
+                    }
+                }
+            }
+            if reject {
+                // nothing of what was sent before the handshake completed may reach the server
+                if let Some(((_, sid), n)) = r.read.iter().find(|((ci, _), _)| *ci == 1) {
+                    sim.violate("async-rejected-early-data-delivered", format!("the server application read {} bytes of stream {} of a connection whose early data it had refused", n, sid));
+                }
+            }
+        }
+    }
+    if r.zr_early_streams > 0 {
+        sim.with(|s| s.probes.hit(if reject { "early_streams_rejected" } else { "early_streams_accepted" }));
+    }
+    drop(r);
+    sim.with(|s| {
+        let mut o = RunOut { violations: std::mem::take(&mut s.violations), faults: s.faults.clone(), probes: s.probes.clone(), sig: s.sig, nontrivial: true, steps: s.steps, sim_ns: s.now, hit_limit: if finished { None } else { Some("budget") }, panic: None, choices: s.ch.values(), log: std::mem::take(&mut s.log), trace: std::mem::take(&mut s.trace), stats: BTreeMap::new(), config: String::new() };
+        o.config = format!("0-RTT world: server {} early data on the second connection; net={:?}", if reject { "refuses" } else { "accepts" }, s.net);
+        o
+    })
+}
+
+fn fam_zero_rtt(ch: Chooser, ctx: &RunCtx) -> RunOut {
+    run_0rtt(ch, ctx)
+}
+
 fn fam_clean(ch: Chooser, ctx: &RunCtx) -> RunOut {
     run(ch, ctx, false, false)
 }
@@ -1036,7 +1334,7 @@ fn fam_big(ch: Chooser, ctx: &RunCtx) -> RunOut {
 pub fn spec() -> PropSpec {
     PropSpec {
         id: "C18",
-        families: vec![Family { name: "clean", f: fam_clean, weight: 30 }, Family { name: "faults", f: fam_faults, weight: 55 }, Family { name: "big", f: fam_big, weight: 15 }],
+        families: vec![Family { name: "clean", f: fam_clean, weight: 30 }, Family { name: "faults", f: fam_faults, weight: 55 }, Family { name: "big", f: fam_big, weight: 15 }, Family { name: "zero-rtt", f: fam_zero_rtt, weight: 15 }],
         quick_worlds: 40_000,
         thorough_worlds: 600_000,
         panic_is_violation: true,
